@@ -266,6 +266,17 @@ def _mk_group(sname):
                            clause="after set_used_res(%s): AmplitudeModel(data) == sum_helicities |sum of the chains containing one of them|^2" % (list(sel),))
             amp.set_used_chains(list(range(n)))
             ctx.eq("restored/density", amp(sdata), expect(list(range(n)))[1], clause="after selecting all chains again: the full density")
+            # temporary selection: restored on normal exit AND when the body raises
+            with amp.temp_used_res([res[0]]):
+                pass
+            ctx.eq("temp_used_res/normal_exit", amp(sdata), expect(list(range(n)))[1], clause="after `with temp_used_res(...)`: the full density is back")
+            try:
+                with amp.temp_used_res([res[-1]]):
+                    raise KeyError("fault inside the block")
+            except KeyError:
+                pass
+            ctx.eq("temp_used_res/exception_exit", amp(sdata), expect(list(range(n)))[1],
+                   clause="after an exception left `with temp_used_res(...)` and was handled by the caller: the full density is back")
             ctx.holds("full/density_nonneg", amp(sdata) >= 0.0, clause="AmplitudeModel(data) >= 0 for all chain amplitudes (C01: the density is non-negative)")
         finally:
             core.DecayChain.get_amp = orig
